@@ -225,6 +225,12 @@ def item_request(repo, out):
                  'retries = response.raw.retries.new()', 'return process(response)'):
         if frag not in tb:
             raise TranslateError('request: loop body lacks `%s`' % frag)
+    # ... in exactly this order, and nothing else, inside the `with _request(...)` block
+    w = trs[0].body[0]
+    if len(trs[0].body) != 1 or not isinstance(w, ast.With) or [ast.unparse(x) for x in w.body] != [
+            '_raise_for_status(response, chunk_name, ignored_errors)', 'retries = response.raw.retries.new()',
+            'return process(response)']:
+        raise TranslateError('request: the with-block is not raise_for_status; renew retries; return process(response)')
     pre = [ast.unparse(s) for s in loops[0].body if not isinstance(s, ast.Try)]
     if pre != ['adapter.max_retries = retries']:
         raise TranslateError('request: loop must set adapter.max_retries = retries: %s' % pre)
@@ -398,4 +404,375 @@ def item_store_state(repo, out):
     out.append('Definition s3_verify_empty : string := %s.' % coq_string(empty))
 
 
-ITEMS = [item_glitches, item_raise_for_status, item_store_init, item_request, item_jwt, item_streaming, item_store_state]
+# ---------------------------------------------------------------------------------------------------
+# Token validation as a function of (token, clock): decode_jwt / _BearerAuth / _auth_factory statement by statement
+
+_CMP = {ast.Gt: 'Gt', ast.GtE: 'GtE', ast.Lt: 'Lt', ast.LtE: 'LtE', ast.Eq: 'Eq', ast.NotEq: 'NotEq'}
+_DECODE_NAMES = {'token', 'encoded_header', 'encoded_payload', 'encoded_signature', 'ValueError', 'InvalidToken',
+                 'token_without_sig', 'header', 'jwt', 'err', 'len_sig', 'len', 'msg', 'claims', 'expiration_time', 'int',
+                 'exp_string', 'time', 'KeyError', 'np', 'OverflowError', 'str'}
+
+
+def _body(fn):
+    """Statements of a function without its docstring."""
+    b = list(fn.body)
+    if b and isinstance(b[0], ast.Expr) and isinstance(b[0].value, ast.Constant) and isinstance(b[0].value.value, str):
+        b = b[1:]
+    return b
+
+
+def _raises_invalid(stmts, what, exc='InvalidToken'):
+    """The statement list ends in `raise <exc>(token, ...)` and contains nothing but local string assignments before it."""
+    if not stmts or not isinstance(stmts[-1], ast.Raise) or not isinstance(stmts[-1].exc, ast.Call) \
+            or _name(stmts[-1].exc.func) != exc:
+        raise TranslateError('%s: expected `raise %s(...)`' % (what, exc))
+    for s in stmts[:-1]:
+        if not (isinstance(s, ast.Assign) and len(s.targets) == 1 and isinstance(s.targets[0], ast.Name)):
+            raise TranslateError('%s: unexpected statement before the raise: %s' % (what, ast.unparse(s)[:80]))
+
+
+def _handlers(tr, what, expected):
+    """try statement with exactly the handlers `expected` = [(exception names, 'raise' | 'assign')]; no else / finally."""
+    if tr.orelse or tr.finalbody or len(tr.handlers) != len(expected):
+        raise TranslateError('%s: unexpected try/except structure' % what)
+    for h, (names, kind) in zip(tr.handlers, expected):
+        if h.type is None or _names(h.type) != names:
+            raise TranslateError('%s: expected `except %s`' % (what, names))
+        if kind == 'raise':
+            _raises_invalid(h.body, what)
+        elif not all(isinstance(s, ast.Assign) for s in h.body):
+            raise TranslateError('%s: `except %s` does more than assign' % (what, names))
+
+
+def _memo_policy(fn, what):
+    """None (no decorator) or the size of a functools memo cache (-1 = unbounded); any other decorator is refused."""
+    if not fn.decorator_list:
+        return None
+    if len(fn.decorator_list) != 1:
+        raise TranslateError('%s: unexpected decorators' % what)
+    d = fn.decorator_list[0]
+    call = d if isinstance(d, ast.Call) else None
+    name = _name(call.func if call else d)
+    if name in ('functools.cache', 'cache') and (call is None or (not call.args and not call.keywords)):
+        return -1
+    if name in ('functools.lru_cache', 'lru_cache'):
+        if call is None or (not call.args and not call.keywords):
+            return 128
+        kw = {k.arg: k.value for k in call.keywords}
+        arg = call.args[0] if len(call.args) == 1 and not kw else (kw.get('maxsize') if set(kw) <= {'maxsize', 'typed'}
+                                                                     and not call.args else None)
+        if arg is None:
+            raise TranslateError('%s: unrecognised lru_cache arguments' % what)
+        if isinstance(arg, ast.Constant) and arg.value is None:
+            return -1
+        v = _const_eval(arg, {}, what)
+        if isinstance(v, int):
+            return max(v, 0)
+    raise TranslateError('%s: unrecognised decorator %s' % (what, ast.unparse(d)))
+
+
+def _no_hidden_state(fn, what, allowed_names):
+    # the decorators are judged separately (_memo_policy / `decorator_list` tests)
+    for n in [x for part in [fn.args] + fn.body for x in ast.walk(part)]:
+        if isinstance(n, (ast.Global, ast.Nonlocal, ast.Lambda, ast.FunctionDef, ast.ClassDef, ast.Yield, ast.Await)) \
+                and n is not fn:
+            raise TranslateError('%s: unexpected %s' % (what, type(n).__name__))
+        if isinstance(n, ast.Name) and n.id not in allowed_names:
+            raise TranslateError('%s: unexpected name %r (hidden state?)' % (what, n.id))
+        if isinstance(n, ast.arg) and n.arg not in allowed_names:
+            raise TranslateError('%s: unexpected argument %r' % (what, n.arg))
+
+
+def item_jwt_flow(repo, out):
+    """The statements of decode_jwt, _BearerAuth.__init__, _BearerAuth.__call__ in source order, how the clock is read and
+    compared with the expiry time, and whether anything is remembered from one validation to the next."""
+    tree = _parse(repo, REL)
+    fn = _func(tree, 'decode_jwt', REL)
+    what = 'decode_jwt'
+    if len([n for n in ast.walk(tree) if isinstance(n, ast.FunctionDef) and n.name == 'decode_jwt']) != 1:
+        raise TranslateError('decode_jwt defined more than once')
+    if any(isinstance(t, ast.Name) and t.id in ('decode_jwt', '_BearerAuth', '_auth_factory', 'time')
+           for n in ast.walk(tree) if isinstance(n, (ast.Assign, ast.AugAssign, ast.AnnAssign))
+           for t in (n.targets if isinstance(n, ast.Assign) else [n.target])):
+        raise TranslateError('decode_jwt / _BearerAuth / _auth_factory / time are rebound by an assignment')
+    a = fn.args
+    if [x.arg for x in a.args] != ['token'] or a.defaults or a.vararg or a.kwarg or a.kwonlyargs or a.posonlyargs:
+        raise TranslateError('decode_jwt: signature is not (token)')
+    _no_hidden_state(fn, what, _DECODE_NAMES)
+    memo = _memo_policy(fn, what)
+    steps = []
+    cmp_name = nseg = sep = None
+    for s in _body(fn):
+        src = ast.unparse(s)
+        if isinstance(s, ast.Try) and len(s.body) == 1 and isinstance(s.body[0], ast.Assign) \
+                and isinstance(s.body[0].value, ast.Call) and ast.unparse(s.body[0].value.func) == 'token.split':
+            tg = s.body[0].targets
+            if len(tg) != 1 or not isinstance(tg[0], ast.Tuple) or \
+                    [ast.unparse(e) for e in tg[0].elts] != ['encoded_header', 'encoded_payload', 'encoded_signature']:
+                raise TranslateError('decode_jwt: split targets are not header, payload, signature')
+            sp = s.body[0].value
+            if len(sp.args) != 1 or sp.keywords or not isinstance(sp.args[0], ast.Constant) or \
+                    not isinstance(sp.args[0].value, str) or len(sp.args[0].value) != 1:
+                raise TranslateError('decode_jwt: token.split has unexpected arguments')
+            _handlers(s, 'decode_jwt split', [(['ValueError'], 'raise')])
+            nseg, sep = len(tg[0].elts), ord(sp.args[0].value)
+            steps.append('split')
+        elif src == "token_without_sig = f'{encoded_header}.{encoded_payload}.'":
+            steps.append('strip_sig')
+        elif isinstance(s, ast.Try) and [ast.unparse(x) for x in s.body] == \
+                ['header = jwt.get_unverified_header(token_without_sig)']:
+            _handlers(s, 'decode_jwt header', [(['jwt.exceptions.DecodeError'], 'raise')])
+            steps.append('header')
+        elif isinstance(s, ast.If) and ast.unparse(s.test).startswith("header.get('alg') =="):
+            # constants come from item_jwt; here: the shape `== alg` / `len_sig != N` and nothing else in the branch
+            if s.orelse or not isinstance(s.test.ops[0], ast.Eq) or len(s.body) != 2 or \
+                    ast.unparse(s.body[0]) != 'len_sig = len(encoded_signature)' or not isinstance(s.body[1], ast.If) or \
+                    s.body[1].orelse or not isinstance(s.body[1].test, ast.Compare) or \
+                    not isinstance(s.body[1].test.ops[0], ast.NotEq) or ast.unparse(s.body[1].test.left) != 'len_sig':
+                raise TranslateError('decode_jwt: unexpected signature-length check')
+            _raises_invalid(s.body[1].body, 'decode_jwt siglen')
+            steps.append('siglen')
+        elif isinstance(s, ast.Try) and [ast.unparse(x) for x in s.body] == \
+                ["claims = jwt.decode(token, options={'verify_signature': False})"]:
+            _handlers(s, 'decode_jwt claims', [(['jwt.exceptions.DecodeError'], 'raise'),
+                                                (['jwt.exceptions.InvalidTokenError'], 'raise')])
+            steps.append('claims')
+        elif isinstance(s, ast.Try) and s.body and ast.unparse(s.body[0]) == "expiration_time = int(claims['exp'])":
+            if len(s.body) != 2 or not ast.unparse(s.body[1]).startswith('exp_string = time.strftime('):
+                raise TranslateError('decode_jwt: unexpected statements next to the exp claim')
+            _handlers(s, 'decode_jwt exp', [(['KeyError'], 'assign'), (['ValueError', 'OverflowError'], 'raise')])
+            if ast.unparse(s.handlers[0].body[0]) != 'expiration_time = np.inf':
+                raise TranslateError('decode_jwt: a token without exp claim does not get expiry time np.inf')
+            steps.append('exp')
+        elif isinstance(s, ast.If) and 'expiration_time' in src.split('\n')[0]:
+            t = s.test
+            if s.orelse or not isinstance(t, ast.Compare) or len(t.ops) != 1 or type(t.ops[0]) not in _CMP or \
+                    ast.unparse(t.left) != 'time.time()' or ast.unparse(t.comparators[0]) != 'expiration_time':
+                raise TranslateError('decode_jwt: expected `if time.time() <op> expiration_time:`')
+            _raises_invalid(s.body, 'decode_jwt expired')
+            cmp_name = _CMP[type(t.ops[0])]
+            steps.append('expired')
+        elif src == 'return claims':
+            steps.append('return')
+        else:
+            raise TranslateError('decode_jwt: unrecognised statement: %s' % src[:100])
+    if len(set(steps)) != len(steps):
+        raise TranslateError('decode_jwt: a check occurs twice: %s' % steps)
+    if cmp_name is None or nseg is None:
+        raise TranslateError('decode_jwt: segment check or expiry check missing')
+    out.append('Definition jwt_decode_steps : list string := %s.' % coq_strings(steps))
+    out.append('Definition jwt_nseg : Z := %s.' % coq_Z(nseg))
+    out.append('Definition jwt_sep : Z := %s.' % coq_Z(sep))
+    out.append('Definition jwt_exp_cmp : string := %s.' % coq_string(cmp_name))
+    out.append('Definition jwt_decode_memo : option Z := %s.' % ('None' if memo is None else 'Some %s' % coq_Z(memo)))
+    # _BearerAuth
+    cls = _class(tree, '_BearerAuth', REL)
+    if cls.decorator_list or cls.keywords or [ast.unparse(b) for b in cls.bases] != ['requests.auth.AuthBase']:
+        raise TranslateError('_BearerAuth: unexpected bases / decorators')
+    members = _body(cls)
+    if [type(m).__name__ + ':' + getattr(m, 'name', '?') for m in members] != ['FunctionDef:__init__', 'FunctionDef:__call__']:
+        raise TranslateError('_BearerAuth: expected exactly __init__ and __call__ (no class-level state)')
+    init, call = members
+    for f, argnames in ((init, ['self', 'token']), (call, ['self', 'r'])):
+        a = f.args
+        if f.decorator_list or [x.arg for x in a.args] != argnames or a.defaults or a.vararg or a.kwarg or a.kwonlyargs:
+            raise TranslateError('_BearerAuth.%s: unexpected signature / decorator' % f.name)
+    _no_hidden_state(init, '_BearerAuth.__init__', {'self', 'token', 'decode_jwt', 'InvalidToken'})
+    _no_hidden_state(call, '_BearerAuth.__call__', {'self', 'r', 'decode_jwt', 'InvalidToken', 'urllib', 'path',
+                                                     'valid_prefixes', 'prefix', 'any', 'allowed'})
+    isteps = []
+    for s in _body(init):
+        src = ast.unparse(s)
+        if src == 'self._claims = decode_jwt(token)':
+            isteps.append('decode')
+        elif isinstance(s, ast.If) and ast.unparse(s.test) == "'prefix' not in self._claims" and not s.orelse:
+            _raises_invalid(s.body, '_BearerAuth.__init__')
+            isteps.append('need_prefix')
+        elif src == 'self._token = token':
+            isteps.append('keep_token')
+        else:
+            raise TranslateError('_BearerAuth.__init__: unrecognised statement: %s' % src[:100])
+    csteps = []
+    for s in _body(call):
+        src = ast.unparse(s)
+        if src == 'decode_jwt(self._token)':
+            csteps.append('decode')
+        elif src == "path = urllib.parse.urlparse(r.url).path.lstrip('/')":
+            csteps.append('path')
+        elif src == "valid_prefixes = self._claims['prefix']":
+            csteps.append('prefixes')
+        elif isinstance(s, ast.If) and not s.orelse and \
+                ast.unparse(s.test) == 'not any((path.startswith(prefix) for prefix in valid_prefixes))':
+            _raises_invalid(s.body, '_BearerAuth.__call__')
+            csteps.append('scope')
+        elif src == "r.headers['Authorization'] = f'Bearer {self._token}'":
+            csteps.append('set_header')
+        elif src == 'return r':
+            csteps.append('return')
+        else:
+            raise TranslateError('_BearerAuth.__call__: unrecognised statement: %s' % src[:100])
+    for st, nm in ((isteps, '__init__'), (csteps, '__call__')):
+        if len(set(st)) != len(st):
+            raise TranslateError('_BearerAuth.%s: a statement occurs twice' % nm)
+    out.append('Definition jwt_init_steps : list string := %s.' % coq_strings(isteps))
+    out.append('Definition jwt_call_steps : list string := %s.' % coq_strings(csteps))
+    # who keeps / constructs what: self._claims and self._token are written in __init__ only, a fresh _BearerAuth per
+    # _auth_factory call, a fresh _auth_factory call per store, a fresh store per from_url
+    for attr in ('_claims', '_token'):
+        stores = [n for n in ast.walk(tree) if isinstance(n, ast.Attribute) and n.attr == attr
+                  and isinstance(n.ctx, (ast.Store, ast.Del))]
+        if len(stores) != 1:
+            raise TranslateError('%s is assigned outside _BearerAuth.__init__' % attr)
+    af = _func(tree, '_auth_factory', REL)
+    want = ['if token is not None and credentials is not None:', 'if token is not None:']
+    got = [ast.unparse(s).split('\n')[0] for s in _body(af)]
+    if af.decorator_list:
+        raise TranslateError('_auth_factory: unexpected decorator %s' % ast.unparse(af.decorator_list[0]))
+    if got != want:
+        raise TranslateError('_auth_factory: unexpected statements %s' % got)
+    _no_hidden_state(af, '_auth_factory', {'url', 'token', 'credentials', 'AuthorisationFailed', 'parsed', 'urllib',
+                                           '_BearerAuth', '_AWSAuth'})
+    tb = _body(af)[1]
+    tsrc = [ast.unparse(s).split('\n')[0] for s in tb.body]
+    if len(tb.body) != 3 or tsrc[0] != 'parsed = urllib.parse.urlparse(url)' or not tsrc[1].startswith('if parsed.scheme') \
+            or tsrc[2] != 'return _BearerAuth(token)' or tb.body[1].orelse:
+        raise TranslateError('_auth_factory: token branch is not parse / https test / return _BearerAuth(token)')
+    uses = [n for n in ast.walk(tree) if isinstance(n, ast.Name) and n.id == '_BearerAuth']
+    if len(uses) != 1:
+        raise TranslateError('_BearerAuth is used outside _auth_factory')
+    store = _class(tree, 'S3ChunkStore', REL)
+    sinit = _func(store, '__init__', REL)
+    if [ast.unparse(s) for s in sinit.body].count('auth = _auth_factory(url, token, credentials)') != 1:
+        raise TranslateError('S3ChunkStore.__init__: expected `auth = _auth_factory(url, token, credentials)` at top level')
+    if len([n for n in ast.walk(tree) if isinstance(n, ast.Name) and n.id == '_auth_factory']) != 1:
+        raise TranslateError('_auth_factory is used outside S3ChunkStore.__init__')
+    sf = [n for n in sinit.body if isinstance(n, ast.FunctionDef) and n.name == 'session_factory']
+    if len(sf) != 1 or 'session.auth = auth' not in [ast.unparse(s) for s in sf[0].body]:
+        raise TranslateError('S3ChunkStore.__init__: session_factory does not install the auth handler')
+    if len([n for n in ast.walk(sinit) if isinstance(n, ast.Name) and n.id == 'auth']) != 2:
+        raise TranslateError('S3ChunkStore.__init__: auth handler used in unexpected places')
+    rel = 'katdal/datasources.py'
+    fu = _func(_class(_parse(repo, rel), 'TelstateDataSource', rel), 'from_url', rel)
+    mk = [n for n in ast.walk(fu) if isinstance(n, ast.Assign) and ast.unparse(n.targets[0]) == 'rdb_store']
+    if len(mk) != 1 or ast.unparse(mk[0].value) != 'S3ChunkStore(store_url, **kwargs)':
+        raise TranslateError('from_url: expected one `rdb_store = S3ChunkStore(store_url, **kwargs)`')
+    if 'url_kwargs = dict(urllib.parse.parse_qsl(url_parts.query))' not in ast.unparse(fu):
+        raise TranslateError('from_url: the URL query is not merged into the keyword arguments')
+
+
+def item_other_sites(repo, out):
+    """The request sites of the public API besides get_chunk: put_chunk, is_complete, mark_complete / create_array."""
+    tree = _parse(repo, REL)
+    cls = _class(tree, 'S3ChunkStore', REL)
+    derived = [n.name for n in tree.body if isinstance(n, ast.ClassDef)
+               and 'ChunkNotFound' in [ast.unparse(b) for b in n.bases]]
+    # request(): defaults of process / ignored_errors / retries
+    req = _func(cls, 'request', REL)
+    a = req.args
+    names = [x.arg for x in a.args] + [x.arg for x in a.kwonlyargs]
+    dflt = dict(zip([x.arg for x in a.args][len(a.args) - len(a.defaults):], a.defaults))
+    dflt.update({k.arg: v for k, v in zip(a.kwonlyargs, a.kw_defaults) if v is not None})
+    if names[:3] != ['self', 'method', 'url'] or ast.unparse(dflt.get('ignored_errors', ast.Constant(1))) != '()' \
+            or ast.unparse(dflt.get('process', ast.Constant(1))) != 'lambda response: response' \
+            or ast.unparse(dflt.get('retries', ast.Constant(1))) != 'None':
+        raise TranslateError('request: unexpected defaults of process / ignored_errors / retries')
+    # is_complete
+    ic = _func(cls, 'is_complete', REL)
+    args, kw = _request_call(ic, 'self', 'is_complete')
+    body = _body(ic)
+    if args != ["'GET'", 'url'] or set(kw) != {'chunk_name'} or len(body) != 4 or not isinstance(body[2], ast.Try) \
+            or ast.unparse(body[0]) != "obj_name = self.join(array_name, 'complete')" \
+            or ast.unparse(body[1]) != 'url = self.make_url(obj_name)' or ast.unparse(body[3]) != 'return True':
+        raise TranslateError('is_complete: unexpected statements')
+    tr = body[2]
+    if tr.orelse or tr.finalbody or len(tr.handlers) != 1 or len(tr.body) != 1 or \
+            [ast.unparse(x) for x in tr.handlers[0].body] != ['return False'] or tr.handlers[0].type is None:
+        raise TranslateError('is_complete: expected try: request / except X: return False')
+    out.append('Definition s3_is_complete_catches : string := %s.' % coq_string(_name(tr.handlers[0].type)))
+    out.append('Definition s3_chunk_not_found : list string := %s.' % coq_strings(derived))
+    # put_chunk
+    pc = _func(cls, 'put_chunk', REL)
+    args, kw = _request_call(pc, 'self', 'put_chunk')
+    if args != ["'PUT'", 'url'] or set(kw) != {'chunk_name', 'headers', 'data'}:
+        raise TranslateError('put_chunk: request is not PUT url with chunk_name / headers / data')
+    if not isinstance(_body(pc)[-1], ast.Expr) or 'self.request(' not in ast.unparse(_body(pc)[-1]):
+        raise TranslateError('put_chunk: the request is not the last statement')
+    # mark_complete -> create_array -> _create_bucket
+    mc = _func(cls, 'mark_complete', REL)
+    src = [ast.unparse(x) for x in _body(mc)]
+    if src != ['self.create_array(array_name)', "obj_name = self.join(array_name, 'complete')",
+               'url = self.make_url(obj_name)', "self.request('PUT', url, chunk_name=obj_name, data=b'')"]:
+        raise TranslateError('mark_complete: unexpected statements %s' % src)
+    ca = [ast.unparse(x) for x in _body(_func(cls, 'create_array', REL))]
+    if ca != ['array_url = self.make_url(array_name)', 'bucket_url = _bucket_url(array_url)',
+              'self._create_bucket(bucket_url)']:
+        raise TranslateError('create_array: unexpected statements %s' % ca)
+    cb = _body(_func(cls, '_create_bucket', REL))
+    first = cb[0]
+    if not (isinstance(first, ast.Expr) and isinstance(first.value, ast.Call)
+            and ast.unparse(first.value.func) == 'self.request'
+            and [ast.unparse(x) for x in first.value.args] == ["'PUT'", 'url']
+            and [k.arg for k in first.value.keywords] == ['ignored_errors']):
+        raise TranslateError('_create_bucket: first statement is not self.request(PUT, url, ignored_errors=...)')
+    ign = _const_eval(first.value.keywords[0].value, {}, '_create_bucket')
+    rest = [ast.unparse(x).split('\n')[0] for x in cb[1:]]
+    if rest != ['if self.public_read:', 'if self.expiry_days > 0:']:
+        raise TranslateError('_create_bucket: unexpected statements after the bucket request: %s' % rest)
+    out.append('Definition s3_create_bucket_ignored : list Z := %s.' % _zlist(ign))
+    # _connect_read_tuple: one value stands for both
+    crt = [ast.unparse(x) for x in _body(_func(tree, '_connect_read_tuple', REL))]
+    if crt != ['try:\n    connect, read = connect_and_or_read\nexcept TypeError:\n    connect = read = connect_and_or_read',
+               'return (connect, read)']:
+        raise TranslateError('_connect_read_tuple: unexpected body')
+
+
+def item_urls(repo, out):
+    """Which object a request asks for: make_url, _normalise_bucket_name, _CHUNK_EXTENSION."""
+    tree = _parse(repo, REL)
+    nb = _body(_func(tree, '_normalise_bucket_name', REL))
+    src = [ast.unparse(x) for x in nb]
+    if len(nb) != 5 or src[0] != 'split_url = urllib.parse.urlsplit(url)' or \
+            src[4] != 'return split_url._replace(path=path).geturl()':
+        raise TranslateError('_normalise_bucket_name: unexpected statements %s' % src)
+    # path_components = split_url.path.lstrip(SEP).split(SEP, 1)
+    v = nb[1].value if isinstance(nb[1], ast.Assign) else None
+    ok = (v is not None and ast.unparse(nb[1].targets[0]) == 'path_components' and isinstance(v, ast.Call)
+          and isinstance(v.func, ast.Attribute) and v.func.attr == 'split' and len(v.args) == 2 and not v.keywords
+          and isinstance(v.func.value, ast.Call) and isinstance(v.func.value.func, ast.Attribute)
+          and v.func.value.func.attr == 'lstrip' and ast.unparse(v.func.value.func.value) == 'split_url.path'
+          and len(v.func.value.args) == 1)
+    if not ok:
+        raise TranslateError('_normalise_bucket_name: path is not split as path.lstrip(sep).split(sep, 1)')
+    sep, maxsplit, strip = (_const_eval(v.args[0], {}, 'nb'), _const_eval(v.args[1], {}, 'nb'),
+                            _const_eval(v.func.value.args[0], {}, 'nb'))
+    if maxsplit != 1 or strip != sep or not isinstance(sep, str) or len(sep) != 1:
+        raise TranslateError('_normalise_bucket_name: unexpected separator / maxsplit')
+    # path_components[0] = path_components[0].replace(FROM, TO)
+    r = nb[2]
+    ok = (isinstance(r, ast.Assign) and ast.unparse(r.targets[0]) == 'path_components[0]' and isinstance(r.value, ast.Call)
+          and ast.unparse(r.value.func) == 'path_components[0].replace' and len(r.value.args) == 2 and not r.value.keywords)
+    if not ok:
+        raise TranslateError('_normalise_bucket_name: only the first path component may be rewritten, by one replace')
+    frm, to = _const_eval(r.value.args[0], {}, 'nb'), _const_eval(r.value.args[1], {}, 'nb')
+    if not (isinstance(frm, str) and isinstance(to, str) and len(frm) == 1 and len(to) == 1):
+        raise TranslateError('_normalise_bucket_name: replace arguments are not single characters')
+    if src[3] != "path = %r + %r.join(path_components)" % (sep, sep):
+        raise TranslateError('_normalise_bucket_name: path is not put together again with the separator: %s' % src[3])
+    out.append('Definition s3_bucket_from : Z := %s.' % coq_Z(ord(frm)))
+    out.append('Definition s3_bucket_to : Z := %s.' % coq_Z(ord(to)))
+    out.append('Definition s3_path_sep : Z := %s.' % coq_Z(ord(sep)))
+    ext = _const_eval(_module_assign(tree, '_CHUNK_EXTENSION', REL), {}, '_CHUNK_EXTENSION')
+    if not isinstance(ext, str):
+        raise TranslateError('_CHUNK_EXTENSION is not a string')
+    out.append('Definition s3_chunk_extension : string := %s.' % coq_string(ext))
+    cls = _class(tree, 'S3ChunkStore', REL)
+    mu = [ast.unparse(x) for x in _body(_func(cls, 'make_url', REL))]
+    if mu != ['relative_path = to_str(urllib.parse.quote(relative_path))',
+              'url = urllib.parse.urljoin(self._url, relative_path)', 'return _normalise_bucket_name(url)']:
+        raise TranslateError('make_url: unexpected statements %s' % mu)
+    for fn in ('get_chunk', 'put_chunk'):
+        if 'url = self.make_url(chunk_name + _CHUNK_EXTENSION)' not in [ast.unparse(x) for x in _func(cls, fn, REL).body]:
+            raise TranslateError('%s: url is not make_url(chunk_name + _CHUNK_EXTENSION)' % fn)
+
+
+ITEMS = [item_glitches, item_raise_for_status, item_store_init, item_request, item_jwt, item_streaming, item_store_state, item_jwt_flow, item_other_sites, item_urls]
